@@ -18,7 +18,7 @@ KNOWN = "known_C11"
 SHARD = 60
 RULE = ("scenarios: operation {init, re-key via sp[k]=v, re-key via update_statepoint, move, clone, remove, clear} x "
         "destination {fresh, existing valid, colliding with another job, empty directory under the new id, directory "
-        "without / with torn / with foreign state point file} x payload {none, nested files + document} x JSON thread "
+        "without / with torn / with foreign state point file, the md5(\"null\") directory holding a null state point} x payload {none, nested files + document} x JSON thread "
         "support {on (default), off}, run on the real signac on a copy of a template workspace that also holds two "
         "unrelated jobs.  Per scenario one PCrash case: the recorded mutation trace (replay self-check), EVERY prefix x "
         "torn offset {1, mid, len-1} materialised on a copy of the pre-state and observed through a fresh Project "
@@ -49,6 +49,7 @@ OPKIND = {"ropen": "SgRead", "listdir": "SgListdir", "mkdir": "SgMkdir", "open":
           "chmod": "SgMeta", "stat": "SgStat"}
 
 SP_A, SP_B, SP_C = {"a": 1}, {"a": 2}, {"b": "x", "c": [1, 2]}
+NULL_ID = "37a6259cc0c1dae299a7866489dff0bd"      # md5("null"): check() accepts a file holding null there, load() does not
 
 
 def set_threads(on):
@@ -137,6 +138,12 @@ def build_template(scn, root):
             os.mkdir(os.path.join(pb.workspace, calc_id(SP_A)))
     if op in ("remove", "clear") and dest == "missing":
         shutil.rmtree(ja.path)
+    if dest == "nullsp":
+        os.mkdir(os.path.join(pa.workspace, NULL_ID))
+        with open(os.path.join(pa.workspace, NULL_ID, SPF), "wb") as fh:
+            fh.write(b"null")
+        with open(os.path.join(pa.workspace, NULL_ID, "keep.txt"), "wb") as fh:
+            fh.write(b"data of the null job")
 
 
 def prepare(scn, root):
@@ -147,7 +154,7 @@ def prepare(scn, root):
     two = scn["op"] in ("move", "clone") and not scn.get("same_project")
     pb = signac.Project(os.path.join(root, "pB")) if two else pa
     op = scn["op"]
-    ida = calc_id(SP_A)
+    ida = NULL_ID if scn["dest"] == "nullsp" else calc_id(SP_A)
     if op == "init":
         job = pa.open_job(init_sp_of(scn))
         return lambda: job.init()
@@ -309,7 +316,7 @@ def coq_op(L, scn):
     op = scn["op"]
     wa, wb = L.path(["pA", WSN]), L.path(["pB", WSN])
     dst = wa if scn.get("same_project") else wb
-    ida = L.name(calc_id(SP_A))
+    ida = L.name(NULL_ID if scn["dest"] == "nullsp" else calc_id(SP_A))
     if op == "init":
         return f"(KInit {wa} {coq_json(init_sp_of(scn))} false)"
     if op == "rekey":
@@ -523,6 +530,10 @@ def scenarios():
                 out.append({"op": op, "dest": dest, "threads": thr})
             out.append({"op": op, "dest": "fresh", "threads": thr, "payload": False})
         out.append({"op": "clone", "dest": "collide", "threads": thr, "same_project": True})
+        # the directory named md5("null") holding a state point file "null": never loads (ae33aa8)
+        out.append({"op": "rekey", "dest": "nullsp", "route": "setitem", "threads": thr})
+        out.append({"op": "move", "dest": "nullsp", "threads": thr})
+        out.append({"op": "clone", "dest": "nullsp", "threads": thr})
         for op, dest in (("rekey", "fresh"), ("move", "fresh"), ("clone", "fresh"), ("remove", "valid"), ("clear", "valid")):
             out.append(dict({"op": op, "dest": dest, "threads": thr, "payload": "big"},
                             **({"route": "setitem"} if op == "rekey" else {})))
